@@ -314,6 +314,7 @@ class Ctx:
         self.rule = ''
         self.assumptions: List[str] = []
         self.corpus_replayed = 0
+        self.escalate = False
 
     def fork(self, name: str) -> random.Random:
         """Independent PRNG stream for one case family (so one family replays without the others)."""
@@ -326,6 +327,9 @@ class Ctx:
         return self.tier == 'quick'
 
     def n(self, quick: int, thorough: int) -> int:
+        if self.quick and self.escalate and thorough > quick:
+            # a modelled source file changed since the model was aligned: spend up to 3x the quick budget
+            return min(thorough, 3 * quick)
         return quick if self.quick else thorough
 
     def elapsed(self) -> float:
@@ -443,6 +447,57 @@ class Ctx:
         }
         with open(os.path.join(EVIDENCE_DIR, '%s.json' % self.pid), 'w') as f:
             json.dump(ev, f, indent=1, default=str)
+
+
+# ------------------------------------------------------------------------------------------------
+# Source fingerprints (DESIGN 2.10): a cheap tie to the source that only ever ESCALATES the budget
+# ------------------------------------------------------------------------------------------------
+
+FINGERPRINTS = os.path.join(HERE, 'fingerprints.json')
+
+
+def _ast_fingerprint(path: str) -> str:
+    import ast
+    try:
+        tree = ast.parse(open(path, encoding='utf8').read())
+    except Exception:  # noqa
+        return 'unparsable'
+    for node in ast.walk(tree):                      # drop docstrings: comments/docstring edits do not count
+        if isinstance(node, (ast.FunctionDef, ast.AsyncFunctionDef, ast.ClassDef, ast.Module)) and node.body:
+            first = node.body[0]
+            if isinstance(first, ast.Expr) and isinstance(getattr(first, 'value', None), ast.Constant) \
+                    and isinstance(first.value.value, str):
+                node.body = node.body[1:] or [ast.Pass()]
+    return hashlib.sha256(ast.dump(tree, annotate_fields=False, include_attributes=False).encode()).hexdigest()[:16]
+
+
+def anchor_files(pid: str) -> List[str]:
+    import glob as _glob
+    for line in open(os.path.join(VERIF, 'properties.jsonl')):
+        rec = json.loads(line)
+        if rec['id'] == pid:
+            out = []
+            for f in rec['anchors']['files']:
+                out += sorted(_glob.glob(os.path.join(REPO, f))) if '*' in f else [os.path.join(REPO, f)]
+            return [os.path.relpath(f, REPO) for f in out if os.path.exists(f)]
+    return []
+
+
+def fingerprint_changes(pid: str) -> List[str]:
+    """Anchor files of the property whose normalised AST differs from the one recorded when the model was
+    last aligned with the code (harness/fingerprints.json). Never a verdict: a change only makes the
+    run spend a larger budget (Ctx.n) and is listed in the evidence."""
+    stored = {}
+    if os.path.exists(FINGERPRINTS):
+        stored = json.load(open(FINGERPRINTS)).get(pid, {})
+    return [f for f in anchor_files(pid) if stored.get(f) != _ast_fingerprint(os.path.join(REPO, f))]
+
+
+def record_fingerprints(pids: Iterable[str]):
+    data = json.load(open(FINGERPRINTS)) if os.path.exists(FINGERPRINTS) else {}
+    for pid in pids:
+        data[pid] = {f: _ast_fingerprint(os.path.join(REPO, f)) for f in anchor_files(pid)}
+    json.dump(data, open(FINGERPRINTS, 'w'), indent=1, sort_keys=True)
 
 
 def ensure_repo_on_path():
